@@ -1056,3 +1056,333 @@ def replay_mm(item):
         r["status"], r["detail"] = status_of(before, st2, after, "f32")
         out[mode] = r
     return out
+
+
+# =================================================================================================
+# run(ctx)
+# =================================================================================================
+EFFECT_OF_STATUS = {"diff": "maydiff", "reject": "reject", "raise": "raise"}
+DEV_EFFECT = {  # mirrors OrtFusion!Effect / FusedMatMul (checked against TLC's own `exec` prediction case by case)
+    "gqa_mask_check_vacuous": "maydiff", "gqa_scale_dropped": "maydiff", "mha_rotary_interleaved_dropped": "maydiff",
+    "group_norm_gamma_not_per_channel": "nokernel",
+    "bias_gelu_bias_not_last_dim": "reject", "cos_sin_cache_1d_position_ids_batch": "reject",
+    "attn_bias_key_axis_broadcast": "reject", "mha_bias_shape_unchecked": "reject",
+    "gqa_head_size_not_multiple_of_16": "reject", "gqa_batch_gt1_with_past": "reject",
+    "fused_matmul_transpose_flags_not_swapped": "wrong", "fused_matmul_noperm_keyerror": "raise",
+}
+
+
+def _tlc_jobs(ctx):
+    big = not ctx.quick
+    of_impl = "OrtFusion_thorough.cfg" if big else "OrtFusion_quick.cfg"
+    of_design = "OrtFusion_design_thorough.cfg" if big else "OrtFusion_design.cfg"
+    mm_impl = "FusedMatMul_thorough.cfg" if big else "FusedMatMul_quick.cfg"
+    mm_design = "FusedMatMul_design_thorough.cfg" if big else "FusedMatMul_design.cfg"
+    # (module, cfg, expectation)   expectation: "ok" | "violated:<invariant>"
+    jobs = [
+        ("OrtFusion", of_impl, "ok"), ("OrtFusion", of_design, "ok"),
+        ("FusedMatMul", mm_impl, "ok"), ("FusedMatMul", mm_design, "ok"),
+        ("OrtFusion", "OrtFusion_canfail.cfg", "violated"),
+        ("OrtFusion", "OrtFusion_vacuity_attention.cfg", "violated"),
+        ("OrtFusion", "OrtFusion_vacuity_gqa.cfg", "violated"),
+        ("OrtFusion", "OrtFusion_vacuity_skip.cfg", "violated"),
+        ("FusedMatMul", "FusedMatMul_canfail.cfg", "violated"),
+        ("FusedMatMul", "FusedMatMul_canraise.cfg", "violated"),
+        ("FusedMatMul", "FusedMatMul_vacuity_batch.cfg", "violated"),
+    ]
+    return jobs
+
+
+def run_all_tlc(ctx):
+    from concurrent.futures import ThreadPoolExecutor
+
+    jobs = _tlc_jobs(ctx)
+    core.scratch()  # create the scratch dir before threads race for it
+    w = max(2, core.NCPU // 4)
+
+    def one(j):
+        mod, cfg, _ = j
+        try:
+            return core.run_tlc(mod, cfg, workers=w, timeout=3000, seed=ctx.seed, heap="3g")
+        except core.MachineryError as e:
+            return e
+
+    with ThreadPoolExecutor(max_workers=4) as ex:
+        results = list(ex.map(one, jobs))
+    out = {}
+    for (mod, cfg, exp), res in zip(jobs, results):
+        if isinstance(res, Exception):
+            raise res
+        ctx.tlc(res, cfg)
+        if exp == "ok" and not res.ok:
+            raise core.MachineryError(f"TLC reports {res.violated} on {mod}/{cfg} (design-level property, deviation bookkeeping or "
+                                      f"pipeline protocol):\n{res.out[-2500:]}")
+        if exp == "violated" and res.ok:
+            raise core.MachineryError(f"vacuity: the witness invariant of {cfg} is never violated (the corresponding property cannot fail / "
+                                      f"the situation is unreachable)")
+        out[cfg] = res
+    return out
+
+
+def parse_lines(out, tag):
+    res = []
+    pre = '"' + tag + " "
+    for line in out.splitlines():
+        if line.startswith(pre):
+            res.append(json.loads(json.loads(line)[len(tag) + 1:]))
+    return res
+
+
+FAM_BUDGET = {"rms": 50, "skipln": 40, "gelu": 40, "softmax": 12, "groupnorm": 10, "rotary": 60, "sdpa": 60, "mha": 110, "gqa": 60}
+
+
+def choose(ctx, groups):
+    """groups: {family: [(cfg, cases)]}; quick tier: a seeded sample per family that keeps deviation cases and firing cases"""
+    if not ctx.quick:
+        return [x for f in sorted(groups) for x in groups[f]]
+    rng = random.Random(ctx.seed)
+    chosen = []
+    for f in sorted(groups):
+        items = list(groups[f])
+        rng.shuffle(items)
+        budget = FAM_BUDGET.get(f, 40)
+        dev = [x for x in items if any(c["why"] for c in x[1])]
+        fire = [x for x in items if not any(c["why"] for c in x[1]) and any(any(c["fired"].values()) for c in x[1])]
+        rest = [x for x in items if not any(c["why"] for c in x[1]) and not any(any(c["fired"].values()) for c in x[1])]
+        # every deviation id at least twice
+        bydev = {}
+        for x in dev:
+            for c in x[1]:
+                for d in c["why"]:
+                    bydev.setdefault(d, []).append(x)
+        pick = []
+        for d in sorted(bydev):
+            pick += bydev[d][:3]
+        nd = budget // 4
+        pick += dev[:nd]
+        pick += fire[: budget // 2]
+        pick += rest[: budget - budget // 2 - nd]
+        seen = set()
+        for x in pick:
+            k = json.dumps(x[0], sort_keys=True)
+            if k not in seen:
+                seen.add(k)
+                chosen.append(x)
+    return chosen
+
+
+class Reporter:
+    """caps the number of replay files per deviation id / family"""
+
+    def __init__(self, ctx):
+        self.ctx = ctx
+        self.n = {}
+        self.violating = 0
+        self.mismatch = 0
+
+    def violation(self, case, what, finding, fam):
+        self.violating += 1
+        key = finding or f"unexplained:{fam}"
+        self.n[key] = self.n.get(key, 0) + 1
+        cap = 4 if finding else 25
+        if self.n[key] <= cap or (finding and self.ctx.known_finding(finding) is not None):
+            self.ctx.report(case, what, finding=finding)
+
+    def spec_mismatch(self, what):
+        self.mismatch += 1
+        if self.mismatch <= 20:
+            print(f"SPEC-MISMATCH C19 {what}"[:900], flush=True)
+
+
+def pick_finding(why, status):
+    want = EFFECT_OF_STATUS.get(status)
+    for d in sorted(why):
+        if DEV_EFFECT.get(d) == want:
+            return d
+    return None
+
+
+def judge_case(rep, cfg, case, r):
+    """one (configuration, pipeline) case: property verdict + model-vs-implementation comparison"""
+    ctx = rep.ctx
+    fam = cfg["fam"]
+    ident = {"kind": "pattern", "cfg": cfg, "mode": case["mode"], "steps": case["steps"], "spec": {"exec": case["exec"], "why": case["why"], "fired": {k: v for k, v in case["fired"].items() if v}}}
+    if "harness_error" in r:
+        raise core.MachineryError(f"replay failed for {cfg}: {r['harness_error']}")
+    if "discard" in r:
+        ctx.add("discarded_original_not_runnable")
+        return
+    ctx.add("evaluations")
+    ident["impl"] = {"status": r["status"], "detail": r["detail"][:300], "counts": r["counts"], "ops": r["ops"]}
+    # ---- model vs implementation (warnings only)
+    exp_counts = {k: v for k, v in case["fired"].items() if v}
+    got = dict(r["counts"])
+    if case["mode"] == "ort":
+        exp_counts.pop("ort_rules", None)
+        got.pop("ort_rules", None)
+    exp_ops = dict(case["ops"]) if isinstance(case["ops"], dict) else {}
+    tag = f"{fam}/{case['mode']} {json.dumps(cfg, sort_keys=True)}"
+    if r["status"] != "raise":
+        ctx.add("traces_validated_against_impl")
+        if exp_counts != got:
+            rep.spec_mismatch(f"fusion counts: model {exp_counts} impl {got} at {tag}")
+        if exp_ops != r["ops"]:
+            rep.spec_mismatch(f"fused operators left: model {exp_ops} impl {r['ops']} at {tag}")
+    okex = case["exec"] == r["status"] or (case["exec"] == "maydiff" and r["status"] in ("same", "diff"))
+    if not okex:
+        rep.spec_mismatch(f"observable: model {case['exec']} impl {r['status']} ({r['detail'][:150]}) at {tag}")
+    # ---- the property
+    if r["status"] == "nokernel":
+        ctx.add("unobservable_no_cpu_kernel")
+        return
+    if r["status"] == "same":
+        return
+    steps = "optimize_for_ort" if case["mode"] == "ort" else "+".join(case["steps"])
+    fired = ", ".join(f"{k}={v}" for k, v in r["counts"].items()) or "nothing counted"
+    if r["status"] == "diff":
+        what = f"{steps} on the {fam} instance {json.dumps(cfg, sort_keys=True)} fused ({fired}) and ORT now returns different values: {r['detail']}"
+    elif r["status"] == "reject":
+        what = f"{steps} on the {fam} instance {json.dumps(cfg, sort_keys=True)} fused ({fired}) into a model ONNX Runtime refuses (the original runs): {r['detail']}"
+    else:
+        what = f"{steps} on the {fam} instance {json.dumps(cfg, sort_keys=True)} raised {r['detail']}"
+    rep.violation(ident, what, pick_finding(case["why"], r["status"]), fam)
+
+
+MM_KEYS = ("fused", "flags", "k", "swapped", "ltr", "rtr", "npost")
+
+
+def judge_mm(rep, init, states, res):
+    ctx = rep.ctx
+    if "harness_error" in res:
+        raise core.MachineryError(f"replay failed for {init}: {res['harness_error']}")
+    if "discard" in res:
+        ctx.add("discarded_original_not_runnable")
+        return False
+    fired_any = False
+    for mode in ("chain", "ort"):
+        r = res[mode]
+        ctx.add("evaluations")
+        ident = {"kind": "matmul", "init": init, "mode": mode, "impl": {"status": r["status"], "detail": r["detail"][:300], "term": r["term"]}}
+        if r["status"] == "raise":
+            cand = [s for s in states if s["st"] == "raised"]
+            pred = "raise" if cand else None
+        else:
+            cand = [s for s in states if s["st"] == "ok" and r["term"] is not None and all(s[k] == r["term"][k] for k in MM_KEYS)]
+            pred = None if not cand else ("same" if cand[0]["same"] else ("reject" if not cand[0]["shape_ok"] else "diff"))
+            ctx.add("traces_validated_against_impl")
+            if r["term"] and r["term"]["fused"]:
+                fired_any = True
+        tag = f"matmul/{mode} {json.dumps(init, sort_keys=True)}"
+        if pred is None:
+            rep.spec_mismatch(f"the rewritten term {r['term']} ({r['status']}) is not a reachable state of FusedMatMul.tla at {tag}")
+        elif pred != r["status"]:
+            rep.spec_mismatch(f"observable: model {pred} impl {r['status']} ({r['detail'][:150]}) at {tag}")
+        if r["status"] in ("same", "nokernel"):
+            continue
+        why = sorted({d for s in cand for d in s["why"]}) if cand else []
+        finding = None
+        if r["status"] == "raise" and "fused_matmul_noperm_keyerror" in why and "KeyError" in r["detail"]:
+            finding = "fused_matmul_noperm_keyerror"
+        if r["status"] in ("diff", "reject") and "fused_matmul_transpose_flags_not_swapped" in why:
+            finding = "fused_matmul_transpose_flags_not_swapped"
+        steps = "optimize_for_ort" if mode == "ort" else "rewrite(ORT_PATTERN_REWRITE_RULES)"
+        verb = {"diff": "returns different values on ORT", "reject": "is refused by ONNX Runtime", "raise": "raised"}[r["status"]]
+        rep.violation(ident, f"{steps} on the MatMul instance {json.dumps(init, sort_keys=True)} -> {r['term']} {verb}: {r['detail']}", finding, "matmul")
+    return fired_any
+
+
+def run(ctx: core.Ctx):
+    tl = run_all_tlc(ctx)
+    of = tl["OrtFusion_thorough.cfg" if not ctx.quick else "OrtFusion_quick.cfg"]
+    mmr = tl["FusedMatMul_thorough.cfg" if not ctx.quick else "FusedMatMul_quick.cfg"]
+    cases = parse_lines(of.out, "C19CASE")
+    mm_states = parse_lines(mmr.out, "C19MM")
+    if not cases or not mm_states:
+        raise core.MachineryError("TLC printed no cases")
+    for c in cases:  # the two tables of deviation effects agree (spec is the source)
+        for d in c["why"]:
+            if d not in DEV_EFFECT:
+                raise core.MachineryError(f"deviation {d} of OrtFusion.tla unknown to the harness")
+    ctx.set("spec_cases", len(cases))
+    ctx.set("spec_matmul_states", len(mm_states))
+    # ---- pattern families
+    groups = {}
+    bycfg = {}
+    for c in sorted(cases, key=lambda c: json.dumps(c, sort_keys=True)):
+        k = json.dumps(c["cfg"], sort_keys=True)
+        if k not in bycfg:
+            bycfg[k] = (c["cfg"], [])
+            groups.setdefault(c["cfg"]["fam"], []).append(bycfg[k])
+        bycfg[k][1].append(c)
+    chosen = choose(ctx, groups)
+    items = [(cfg, cs, ctx.seed) for cfg, cs in chosen]
+    results = core.pmap_safe(replay_cfg, items, timeout=180)
+    rep = Reporter(ctx)
+    nontriv = 0
+    for (cfg, cs, _), rs in zip(items, results):
+        if rs is core.HANG:
+            rep.violation({"kind": "pattern", "cfg": cfg}, f"fusing the {cfg['fam']} instance {cfg} did not terminate within 180 s", None, cfg["fam"])
+            continue
+        if isinstance(rs, core.MachineryErrorResult):
+            raise core.MachineryError(f"worker failed on {cfg}: {rs.msg}")
+        if any(r.get("counts") for r in rs):
+            nontriv += 1
+        for c, r in zip(cs, rs):
+            judge_case(rep, cfg, c, r)
+        if any(r.get("counts") for r in rs):
+            ctx.sample({"cfg": cfg, "results": [{"mode": c["mode"], "model": {"fired": {k: v for k, v in c["fired"].items() if v}, "exec": c["exec"], "why": c["why"]},
+                                                 "impl": {"status": r.get("status"), "counts": r.get("counts")}} for c, r in zip(cs, rs)]}, limit=4)
+    # ---- fused MatMul family
+    byinit = {}
+    for s in mm_states:
+        byinit.setdefault(json.dumps(s["init"], sort_keys=True), []).append(s)
+    inits = sorted(byinit)
+    if ctx.quick:
+        rng = random.Random(ctx.seed + 1)
+        rng.shuffle(inits)
+        dev = [k for k in inits if any(s["why"] for s in byinit[k])]
+        rest = [k for k in inits if not any(s["why"] for s in byinit[k])]
+        inits = dev[:40] + rest[:110]
+    mitems = [(json.loads(k), ctx.seed) for k in inits]
+    mres = core.pmap_safe(replay_mm, mitems, timeout=180)
+    for (init, _), res in zip(mitems, mres):
+        if res is core.HANG:
+            rep.violation({"kind": "matmul", "init": init}, f"rewriting the MatMul instance {init} did not terminate within 180 s", None, "matmul")
+            continue
+        if isinstance(res, core.MachineryErrorResult):
+            raise core.MachineryError(f"worker failed on {init}: {res.msg}")
+        if judge_mm(rep, init, byinit[json.dumps(init, sort_keys=True)], res):
+            nontriv += 1
+    ctx.sample({"matmul_init": mitems[0][0], "impl": mres[0] if isinstance(mres[0], dict) else str(mres[0])}, limit=6)
+    ctx.set("configurations_replayed", len(items) + len(mitems))
+    ctx.set("configurations_in_spec", len(bycfg) + len(byinit))
+    ctx.set("distinct_nontrivial", nontriv)
+    ctx.set("violating_cases", rep.violating)
+    ctx.set("violating_cases_by_cause", dict(sorted(rep.n.items())))
+    ctx.set("model_impl_mismatches", rep.mismatch)
+    ctx.set("exhaustive", not ctx.quick)
+    ctx.set("rule", "a configuration = one pattern instance (family + sizes + optional inputs + operand orders + attribute values + dtype) "
+                    "enumerated by OrtFusion.tla / one initial term of FusedMatMul.tla; each is replayed through its fuse_* chain and through "
+                    "optimize_for_ort (2 evaluations); non-trivial = distinct configurations in which the real code fused something "
+                    "(a fusion count > 0 or a FusedMatMul node)")
+    ctx.assumptions += [
+        "onnxruntime (CPU EP, graph optimizations disabled) is the arbiter of 'same outputs': one seeded random input per configuration, rtol=atol=1e-3 (f32) / 2e-2 (f16)",
+        "a fused model that ORT refuses with NOT_IMPLEMENTED (no CPU kernel: com.microsoft.GroupNorm) is counted as unobservable, not judged",
+        "attention masks are finite (0 / -1000) and never mask a whole row; -inf masks (NaN rows, the IsNaN/Where variant) are not generated",
+        "fusions that need dynamic shapes and hand-written value_info (GQA) are built the way ort_fusions/gqa_test.py builds them",
+        "thorough bounds: B,S in {1,2,3}, heads in {1,2,4}, head sizes in {2,4,8,16}; larger sizes are not explored",
+    ]
+
+
+def replay(ctx, path):
+    with open(path) as f:
+        case = json.load(f)["case"]
+    if case.get("kind") == "matmul":
+        res = replay_mm((case["init"], ctx.seed))
+        r = res.get(case["mode"], res)
+        print(json.dumps({"case": case, "now": r}, indent=1, default=str))
+        return 0 if r.get("status") in ("same", "nokernel") else 1
+    spec_case = {"mode": case["mode"], "steps": case["steps"]}
+    r = replay_cfg((case["cfg"], [spec_case], ctx.seed))[0]
+    print(json.dumps({"case": case, "now": r}, indent=1, default=str))
+    return 0 if r.get("status") in ("same", "nokernel") or "discard" in r else 1
